@@ -3,6 +3,7 @@
   harness can run model and implementation on the same inputs.
 -/
 import GridVerse.Model.Codec
+import GridVerse.Model.Heap
 namespace GV.Driver
 open GV.Codec
 
@@ -234,6 +235,77 @@ def handleEnv (op : String) : P String := do
       pure (showBool ((⟨sh, sw, kinds, colors⟩ : ObsSpace).contains o))
   | _ => failure
 
+/-! ### identity-level ops (Layer H) -/
+
+def shallowTok : Obj → String
+  | .box _ => "X"
+  | o => showObj o
+
+/-- `name:token` of the object at `r`, then `>` and the same for its content -/
+def descr (names : List (Ref × String × NodeKind)) (hp : Heap) : Nat → Ref → String
+  | 0, r => nameOf names r ++ ":" ++ shallowTok (hp.objOf r).obj
+  | fuel + 1, r =>
+    nameOf names r ++ ":" ++ shallowTok (hp.objOf r).obj ++
+      match (hp.objOf r).obj, (hp.objOf r).content with
+      | .box _, some c => ">" ++ descr names hp fuel c
+      | _, _ => ""
+
+/-- the nodes of the input whose contents changed, and the identity graph of the result -/
+def heapReport (names : List (Ref × String × NodeKind)) (h0 h1 : Heap) (res : HState) : String :=
+  let changed := (names.filter fun e => nodeChanged h0 h1 e.1 e.2.2).map fun e => e.2.1
+  let rows := h1.rowsOf res.outer
+  let ag := h1.agentOf res.agent
+  let containers := [nameOf names res.outer] ++ rows.map (nameOf names) ++ [nameOf names res.agent, nameOf names ag.1]
+  let cells := rows.flatMap fun r => (h1.cellsOf r).map (descr names h1 boxFuel)
+  (if changed.isEmpty then "-" else " ".intercalate changed) ++ " | " ++ " ".intercalate containers ++ " | " ++
+    " ".intercalate cells ++ " | " ++ descr names h1 boxFuel ag.2 ++ " | " ++ showState (h1.abs res)
+
+def pMaskBits (h w : Nat) : P Mask := do
+  let bits := (← tok).toList
+  if bits.length ≠ h * w then failure else
+  pure fun q => decide (0 ≤ q.y) && decide (0 ≤ q.x) && decide (q.x < w) && bits.getD (q.y.toNat * w + q.x.toNat) '0' == '1'
+
+def handleHeap (op : String) : P String := do
+  match op with
+  | "heap" => do
+      let which ← tok
+      match which with
+      | "inplace" | "step" => do
+          let fs ← pCounted pTransAtom
+          let st ← pState
+          let a ← pAction
+          let d ← pDraw
+          let l := Heap.empty.load st
+          let names := l.2.nodeNames l.1
+          match runChain fs st a d with
+          | .error e => pure (showErr e)
+          | .ok pure' =>
+            if which == "inplace" then
+              let r := hRunChain fs l.2 l.1 a d
+              pure (heapReport names l.2 r.1 l.1 ++ " | ref=" ++ showBool (decide (r.1.abs l.1 = pure'.1)) ++
+                " | " ++ showLog r.2.log)
+            else
+              let r := hFunctionalStep fs l.2 l.1 a d
+              pure (heapReport names l.2 r.2.1 r.1 ++ " | ref=" ++ showBool (decide (r.2.1.abs r.1 = pure'.1)) ++
+                " | " ++ showLog r.2.2.log)
+      | "obs" => do
+          let st ← pState
+          let a ← pArea
+          let m ← pMaskBits a.height a.width
+          let l := Heap.empty.load st
+          let names := l.2.nodeNames l.1
+          if !(st.grid.contains st.agent.pos) then pure "skip" else
+          let r := hFromVisibility l.2 l.1 a m
+          pure (heapReport names l.2 r.2 r.1)
+      | "copy" => do
+          let st ← pState
+          let l := Heap.empty.load st
+          let names := l.2.nodeNames l.1
+          let r := l.2.fastCopy l.1
+          pure (heapReport names l.2 r.2 r.1)
+      | _ => failure
+  | _ => failure
+
 def handleLine (line : String) : String :=
   match (line.splitOn " ").filter (· ≠ "") with
   | [] => "bad-op"
@@ -253,6 +325,9 @@ def handleLine (line : String) : String :=
         | none =>
           match run handleEnv with
           | some o => o
-          | none => "bad-op"
+          | none =>
+            match run handleHeap with
+            | some o => o
+            | none => "bad-op"
 
 end GV.Driver
